@@ -7,7 +7,8 @@
      1: model <> implementation somewhere, the specification accepts every call
      2: some call violates the specification (property violation)
    The specification side ([spec_ok]) uses Init/Spec.v only (plus the shared MRO and
-   prepare_value primitives); it never runs resolve_all / construct. *)
+   prepare_value primitives); it never runs resolve_all / construct.  Init/Proofs.v is
+   imported for [in_scope] alone (counting the calls inside the theorem's hypotheses). *)
 From Coq Require Import List ZArith Bool Arith.
 From SC Require Import Base.Res Init.Model Init.Spec Init.Proofs Corr.Enc.
 Import ListNotations.
